@@ -80,7 +80,17 @@ type c21Model struct {
 	everAdded  map[string]map[int32]bool // values ever offered for a key
 	savedBytes []byte
 	saved      map[string]c21Entry
+	// since the last effective save / load:
+	dirty      string // "" or what changed the set of mappings (an add that inserted or evicted, a TTL removal)
+	addCalls   int    // AddValues calls that offered at least one cacheable new pair
+	partialFit bool   // ... one of them inserted only some of its pairs (and changed the contents)
+	ttlRemoved bool   // only used when TTL removals are not required to reach the file
 }
+
+// c21TTLRemovalMustBeSaved: a TTL removal changes the set of mappings, so a later Save has to write the
+// file (statement: the cache reloads from its saved file to the same contents). Access times alone do not
+// count: they change on every lookup and the version check in Save exists to skip exactly those writes.
+const c21TTLRemovalMustBeSaved = true
 
 func c21Copy(m map[string]c21Entry) map[string]c21Entry {
 	r := make(map[string]c21Entry, len(m))
@@ -341,6 +351,16 @@ func (w *c21CacheWorld) add(op c21CacheOp) {
 	if mod.maxSize < preSize {
 		w.cls["add-while-over-lowered-limit"] = true
 	}
+	if len(valid) > 0 {
+		mod.addCalls++
+	}
+	if added > 0 || evicted > 0 {
+		mod.dirty = what
+		if added < int64(len(valid)) {
+			mod.partialFit = true
+			w.cls["partial-fit-add"] = true
+		}
+	}
 	mod.adds += added
 	mod.evicts += evicted
 	mod.m = post
@@ -426,6 +446,11 @@ func (w *c21CacheWorld) removeByTTL(op c21CacheOp) {
 	}
 	if removed > 0 {
 		w.cls["ttl-evict"] = true
+		if c21TTLRemovalMustBeSaved {
+			mod.dirty = what
+		} else {
+			mod.ttlRemoved = true
+		}
 	}
 	mod.evicts += removed
 	mod.m = post
@@ -454,9 +479,33 @@ func (w *c21CacheWorld) save() {
 		t.Fatalf("Save: %v", err)
 	}
 	after := w.fileBytes()
+	if mod.dirty != "" {
+		w.cls["save-after-change"] = true
+		if mod.partialFit && mod.addCalls == 1 {
+			w.cls["save-after-partial-fit-add"] = true // the only add since the last save/load inserted some of its pairs
+		}
+	}
 	if !ok {
 		if !bytes.Equal(before, after) {
 			t.Fatalf("Save reported nothing to do but changed the file")
+		}
+		if mod.dirty != "" {
+			t.Fatalf("Save reported nothing to save, but the mappings changed since the last save/load (%s): the file still holds %d entries, the cache %d",
+				mod.dirty, len(mod.saved), len(mod.m))
+		}
+		if mod.ttlRemoved {
+			return
+		}
+		// nothing but access times changed: the file on disk must still reload to the live mappings
+		onDisk, _ := c21ParseFile(t, after)
+		items := c21ItemsOf(onDisk)
+		if len(items) != len(mod.m) {
+			t.Fatalf("after Save (nothing to save): file holds %d entries, cache %d", len(items), len(mod.m))
+		}
+		for k, e := range mod.m {
+			if f, ok := items[k]; !ok || f.val != e.val {
+				t.Fatalf("after Save (nothing to save): file has %q=%+v, cache %+v", k, f, e)
+			}
 		}
 		return
 	}
@@ -482,8 +531,27 @@ func (w *c21CacheWorld) save() {
 			t.Fatalf("Save: file has %q=%+v, cache %+v", k, got[k], e)
 		}
 	}
+	// and an actual reload of it gives the live contents back
+	if mod.dirty != "" {
+		cp := append([]byte(nil), after...)
+		c2, err := LoadMappingsCacheSlice(&cp, mod.maxSize)
+		if err != nil {
+			t.Fatalf("reload right after Save: %v", err)
+		}
+		c2.testMode = true
+		re := c21Observe(t, c2, w.universe, "reload right after Save")
+		if len(re) != len(mod.m) {
+			t.Fatalf("reload right after Save: %d entries, cache %d", len(re), len(mod.m))
+		}
+		for k, e := range mod.m {
+			if re[k] != e {
+				t.Fatalf("reload right after Save: %q=%+v, cache %+v", k, re[k], e)
+			}
+		}
+	}
 	mod.savedBytes = after
 	mod.saved = c21Copy(mod.m)
+	mod.dirty, mod.addCalls, mod.partialFit, mod.ttlRemoved = "", 0, false, false
 	w.cls["save"] = true
 }
 
@@ -529,6 +597,7 @@ func (w *c21CacheWorld) load(op c21CacheOp) {
 	mod.saved = c21Copy(got)
 	mod.savedBytes = data
 	mod.adds, mod.evicts, mod.tsUpdates = 0, 0, 0
+	mod.dirty, mod.addCalls, mod.partialFit, mod.ttlRemoved = "", 0, false, false
 }
 
 func c21CacheProp(t vpT, cs c21CacheCase) (nontrivial bool, classes []string) {
@@ -783,15 +852,44 @@ func c21GenCacheOp() *rapid.Generator[c21CacheOp] {
 	})
 }
 
+// c21GenCacheSegment: one operation, or "save/load, then one add that cannot fit completely, then save
+// (and reload)": the add changes the contents through the eviction path right after the versions were equal.
+func c21GenCacheSegment() *rapid.Generator[[]c21CacheOp] {
+	return rapid.Custom(func(t *rapid.T) []c21CacheOp {
+		if rapid.IntRange(0, 6).Draw(t, "pattern") != 0 {
+			return []c21CacheOp{c21GenCacheOp().Draw(t, "op")}
+		}
+		var ops []c21CacheOp
+		if rapid.Bool().Draw(t, "small-limit") {
+			ops = append(ops, c21CacheOp{K: "cfg", N: rapid.IntRange(2, 5).Draw(t, "size"), TTL: rapid.SampledFrom([]int{0, 20}).Draw(t, "ttl")})
+		}
+		if rapid.Bool().Draw(t, "sync-by-load") {
+			ops = append(ops, c21CacheOp{K: "load", Save: true})
+		} else {
+			ops = append(ops, c21CacheOp{K: "save"})
+		}
+		ops = append(ops, c21CacheOp{K: "add", Now: uint32(rapid.IntRange(0, 60).Draw(t, "now")),
+			Keys: rapid.SliceOfNDistinct(rapid.IntRange(1, len(c21KeyLens)-1), 3, 10, rapid.ID[int]).Draw(t, "keys")})
+		ops = append(ops, c21CacheOp{K: "save"})
+		if rapid.Bool().Draw(t, "reload") {
+			ops = append(ops, c21CacheOp{K: "load"})
+		}
+		return ops
+	})
+}
+
 func c21GenCacheCase() *rapid.Generator[c21CacheCase] {
 	return rapid.Custom(func(t *rapid.T) c21CacheCase {
-		return c21CacheCase{
+		c := c21CacheCase{
 			File:    rapid.IntRange(0, 7).Draw(t, "file") == 7,
 			Det:     rapid.Bool().Draw(t, "det"),
 			MaxSize: rapid.IntRange(0, len(c21Sizes)-1).Draw(t, "size"),
 			TTL:     rapid.SampledFrom([]int{0, 5, 20, 20}).Draw(t, "ttl"),
-			Ops:     rapid.SliceOfN(c21GenCacheOp(), 4, 60).Draw(t, "ops"),
 		}
+		for _, seg := range rapid.SliceOfN(c21GenCacheSegment(), 4, 50).Draw(t, "segments") {
+			c.Ops = append(c.Ops, seg...)
+		}
+		return c
 	})
 }
 
